@@ -328,6 +328,39 @@ def run(chk: Check):
     model = common.run_model_parallel(PROP, lines)
     compare(chk, hists, impl, crashed, model)
     chk.exhaustive = False
+    # ---- operations outside the Coq model (direct predicate only): append with a wrong trailing shape,
+    #      shrink_data(), tuple indices, concatenate(axis=1)
+    xh = []
+    for ci, (shape, kind, sizes, tiny) in enumerate(CONFIGS):
+        g = L.Gen(shape, kind, sizes, tiny)
+        xh += [('ext:core', g.header(), t) for t in L.ext_core(g, tiny)]
+    for _ in range(chk.n(400, 8000)):
+        shape, kind, sizes, tiny = chk.rng.choice(CONFIGS)
+        g = L.Gen(shape, kind, sizes, tiny)
+        bc = sorted({tiny, g.bpr() * 2, L.DEFAULT_BYTES, 1})
+        xh.append(('ext:rand', g.header(), L.random_history(g, chk.rng, chk.rng.choice([6, 10, 15]), bc, ext=True)))
+    ximpl, xcrashed = run_children([(f'x{n}', hd, t) for n, (_, hd, t) in enumerate(xh)])
+    nv = 0
+    for n, (tag, hd, toks) in enumerate(xh):
+        hid = f'x{n}'
+        case = {'header': hd, 'ops': toks}
+        chk.count(key=(hd, tuple(toks)), tag=tag, sample=case if n == 3 else None)
+        if hid in xcrashed:
+            chk.violation('property_violation', case=case, predicate='child process died: ' + xcrashed[hid])
+            continue
+        echo, steps, lays = ximpl[hid]
+        case['ops'] = echo
+        for t in echo:
+            chk.tagc('op:' + t.split(':')[0])
+        fails, known = L.check_history(echo, steps, lays)
+        for fid in known:
+            chk.known(fid, KNOWN_TEXT[fid])
+            chk.tagc('known:' + fid, known[fid])
+        if fails and nv < 20:
+            nv += 1
+            cat, k, detail = fails[0]
+            chk.violation('property_violation', case=case, impl_output=steps[k] if k < len(steps) else None,
+                          predicate=f'{cat} fails at step {k}: {detail}', theorem='C15_' + cat)
     # ---- Tractogram layer: direct predicate only (no Coq model of Tractogram)
     thists = gen_tract(chk)
     timpl, tcrashed = run_children([(f't{n}', 'T', t) for n, (_, t) in enumerate(thists)])
@@ -373,17 +406,22 @@ def run(chk: Check):
 
 
 UNPROVED = [
-    'a single simulation theorem for ALL operations is not stated: C15_simulation (absC (step st o) = spec_step (absC st) o, '
-    'abstract state = per object (alive, list of arrays)) covers construction, un-cached append, extend, indexing, view '
-    'constructor, copy, out-of-place operators (scalar / sequence operand) and drop; cached builds, concatenate, '
-    'assignments and in-place operators are covered by separate theorems (visible+pending list; the value of every '
-    'element of every object through the cell valuation abs_seq / is_cell), not by the abstract machine, because their '
-    'effect depends on which arrays are shared, which growth changes in a capacity-dependent way',
+    'a single simulation theorem for ALL operations against one abstract machine is still not stated.  Proved instead, '
+    'for every reachable state: C15_simulation (absC (step st o) = spec_step (absC st) o; abstract state = per object '
+    '(alive, list of arrays)) for construction, un-cached append, extend, indexing, view constructor, copy, out-of-place '
+    'operators and drop; the evolution of the sharing relation R ("element q of x is the same array as element q\' of y") '
+    'for growth (C15_links_growth: links between other objects unchanged, links of the grown object may be cut, never '
+    'created = S-C15d), indexing / copy (C15_links_view, C15_links_copy) and writes (C15_links_write); assignments and '
+    'in-place operators as functions of (contents, R) (C15_own_contents_setitem_*, _inplace, _opseq_inplace).  Missing for '
+    'the single theorem: cached builds (pending elements are not in the abstract state; covered by '
+    'C15_own_contents_append/_finalize through the visible+pending list), concatenate (C15_own_contents_concatenate), and '
+    'the packaging of the pieces above into one relation spec_rel (absS st) o (absS st\') with absS = (absC, R)',
     'C15_view_write_through at full strength is false of the faithful model (C15_view_write_through_refuted, S-C15d); '
     'proved: _partial (exactly the same-cell elements change, i.e. while the two objects share the buffer)',
-    'not modelled, hence no theorem: tuple indices, concatenate(axis != 0), '
-    'save/load, the ValueError of append on a trailing-shape mismatch (which detaches a view before raising), '
-    'shrink_data() called directly on a view',
+    'operations checked by the direct predicate only (no Coq model, no theorem): tuple indices seq[idx, cols], '
+    'concatenate(axis != 0), the ValueError of append on a trailing-shape mismatch (un-cached and cached), shrink_data() as '
+    'an operation of histories (C15_shrink_harmless covers a direct call outside a cached build); Tractogram.__getitem__, '
+    'copy (deepcopy), __add__, apply_affine (C15_tractogram_extend_* cover extend / += only); save/load not covered at all',
 ]
 
 
